@@ -7,7 +7,8 @@
 (*       or one attribute value.                                                           *)
 EXTENDS Integers, Sequences, FiniteSets, TLC
 
-CONSTANTS Which, MaxLen
+CONSTANTS Which, MaxLen, SmallLen, AsBuilt
+Has(f) == f \in AsBuilt
 Failed(gs) == {g[1] : g \in {x \in gs : ~x[2]}}
 SeqToSet(s) == {s[i] : i \in DOMAIN s}
 
@@ -29,10 +30,42 @@ Prefixes == {<<"slash", "backslash">>, <<"slash", "tab", "slash">>, <<"slash", "
              <<"slash", "lf", "backslash">>, <<"slash", "pctslash">>, <<"slash", "pcttab", "slash">>,
              <<"slash", "ctl", "slash">>, <<"slash", "space", "slash">>, <<"host", "colon", "slash", "slash">>,
              <<"slash", "dot", "slash">>, <<"backslash", "backslash">>, <<"slash", "host", "at">>}
-InC17(r) == \/ \E s \in SeqsUpTo(MaxLen) : r = [handler |-> "login", dest |-> s]
+\* ... and, up to SmallLen, over the alphabet that path normalisation reacts to
+Small == {"slash", "backslash", "dot", "host", "qmark"}
+SmallSeqs == UNION {[1..k -> Small] : k \in 1..SmallLen}
+InC17(r) == \/ \E s \in SeqsUpTo(MaxLen) \cup SmallSeqs : r = [handler |-> "login", dest |-> s]
             \/ \E h \in RedirectingHandlers, s \in SeqsUpTo(2) : r = [handler |-> h, dest |-> s]
             \/ \E h \in RedirectingHandlers, p \in Prefixes, t \in SeqsUpTo(1) \cup {<<>>} :
                  r = [handler |-> h, dest |-> p \o <<"host">> \o t]
+
+\* what the redirecting step (net/http Redirect) does to a rooted, host-less destination before it becomes the
+\* Location header: the path part (up to the first ? or #) loses its dot segments and repeated slashes, a trailing
+\* slash survives.  A destination is a sequence of character classes; a path segment is what lies between slashes.
+FirstIdx(s, set) == IF \E i \in 1..Len(s) : s[i] \in set THEN CHOOSE i \in 1..Len(s) : s[i] \in set /\ \A j \in 1..(i-1) : s[j] \notin set
+                    ELSE Len(s) + 1
+PathPart(s) == SubSeq(s, 1, FirstIdx(s, {"qmark", "hash"}) - 1)
+RestPart(s) == SubSeq(s, FirstIdx(s, {"qmark", "hash"}), Len(s))
+RECURSIVE CleanFrom(_, _, _, _)
+\* i: position, cur: segment being read, stack: cleaned segments so far
+Push(stack, seg) == IF seg = <<>> \/ seg = <<"dot">> THEN stack
+                    ELSE IF seg = <<"dot", "dot">> THEN (IF stack = <<>> THEN stack ELSE SubSeq(stack, 1, Len(stack) - 1))
+                    ELSE Append(stack, seg)
+CleanFrom(p, i, cur, stack) ==
+    IF i > Len(p) THEN Push(stack, cur)
+    ELSE IF p[i] = "slash" THEN CleanFrom(p, i + 1, <<>>, Push(stack, cur))
+    ELSE CleanFrom(p, i + 1, Append(cur, p[i]), stack)
+RECURSIVE Join(_, _)
+Join(stack, i) == IF i > Len(stack) THEN <<>> ELSE <<"slash">> \o stack[i] \o Join(stack, i + 1)
+CleanPath(p) == LET st == CleanFrom(p, 1, <<>>, <<>>)
+                    j == IF st = <<>> THEN <<"slash">> ELSE Join(st, 1)
+                IN IF Len(p) > 1 /\ p[Len(p)] = "slash" /\ j[Len(j)] # "slash" THEN Append(j, "slash") ELSE j
+\* only rooted destinations without an authority are normalised (others are absolute or resolved against the request path)
+Normalised(s) == IF Len(s) >= 1 /\ s[1] = "slash" /\ ~(Len(s) >= 2 /\ s[2] = "slash") THEN CleanPath(PathPart(s)) \o RestPart(s) ELSE s
+\* the filter of the handler: which destinations it keeps.  The statement's predicate has to hold for what the
+\* browser RECEIVES, so the filter must be closed under the normalisation
+HasIn(s, c) == \E i \in 1..Len(s) : s[i] = c
+Keeps(s) == IF Has("FilterChecksPrefixOnly") THEN SafeDest(s)                                  \* as built before the second repair
+            ELSE SafeDest(s) /\ ~HasIn(PathPart(s), "backslash")
 
 \* ------------------------------------------------------------------ C13
 \* u = [scheme, userinfo, host, port, path, query, quirk]; host names a host CLASS whose relation to the
@@ -89,7 +122,7 @@ Pending == [pending |-> TRUE]
 Init == out = Pending /\ CASE Which = "C17" -> InC17(req) [] Which = "C13" -> InC13(req) [] Which = "C18" -> InC18(req)
 \* the reference implementation: the filter of the statement
 RefC17 == /\ Which = "C17" /\ out = Pending
-          /\ out' = IF SafeDest(req.dest) THEN [redirected |-> TRUE, profile |-> FALSE, loc |-> req.dest, panic |-> FALSE]
+          /\ out' = IF Keeps(req.dest) THEN [redirected |-> TRUE, profile |-> FALSE, loc |-> Normalised(req.dest), panic |-> FALSE]
                     ELSE [redirected |-> TRUE, profile |-> TRUE, loc |-> <<"slash">>, panic |-> FALSE]
           /\ UNCHANGED req
 RefC13 == /\ Which = "C13" /\ out = Pending
